@@ -42,6 +42,19 @@ CLAIMED["C03"] = (
     "DESIGN.md 3/C03",
 )
 
+CLAIMED["C05"] = (
+    "runtime monitor: per-node local chain-rule obligation on the evaluator's own f32 operand duals against f64 derivative rules (tolerance 64*eps*T), gradient value bit-equal to the point value, and Context::deriv evaluated in f64 against an f64 dual-number reference; both backends, arbitrary seed gradients, witness shrinking",
+    "Held on every node/sample observed away from the stated non-differentiable loci (guards and skip counts in evidence; observed worst error ~12 eps*T against a tolerance of 64). Exploration.",
+    "Loci guard as listed in the evidence assumptions; values into which a NaN was hashed by rand/mix are not compared.",
+    "DESIGN.md 3/C05",
+)
+CLAIMED["C16"] = (
+    "runtime monitor against an independent closed-form f64 geometry model: every shape/transform struct of the library with random parameters and nesting, sign tests for primitives and CSG, T(s)(p)=s(T^-1 p) for transforms, periodicity/slab/symmetry tests, named axes and planes",
+    "Held on every shape/point observed (all 26 structs exercised, floors per kind). Exploration over parameters and sample points.",
+    "Only what the documentation states unambiguously is judged (list of non-judged aspects in the evidence assumptions); points within 1e-4 of a surface are skipped for sign tests.",
+    "DESIGN.md 3/C16",
+)
+
 NOT_YET = {}
 
 def main():
